@@ -113,3 +113,230 @@ def build_u_tokens(list_leaves, all_cases):
         else:
             toks.append(f"{len(parents)}/L/{comps[-1]}/A" + "".join("/" + a for a in args))
     return toks
+
+
+# ---------------------------------------------------------------------------
+# runner-config-fresh-process: scalar settings (hook runner_config) and filter set (hook runner_filter_is_match)
+# of a fresh process; shared by C15 (field resolution) and C13 (filter-set glue)
+# ---------------------------------------------------------------------------
+RC_PATHS = ["hx_select_e2e::sel::top", "hx_select_e2e::sel::alpha::a", "hx_select_e2e::sel::alpha::beta::b::5", "a::b", "a::b::c", "String",
+            "hx_select_e2e::sel::gen_ty::String", "m::tuple::(1, 2)", "Pair<u8, u8>", "", "top", "hx_select_e2e::sel::Grp::sub::top", "x"]
+RC_TEXT = ["top", "a::b", "alpha", "String", "string", "hx_select_e2e::sel::top", "a", "", "::", "x", "a::b::c", "(1, 2)", "Grp", "5"]
+RC_REGEX = ["top$", "^a", "a::b$", "alpha|Grp", "^$", ".", "::[0-9]+$", "(?i)STRING", "[A-Z]", "^hx_select_e2e::sel::[a-z]+$", "u8, u8", "b::c"]
+SORTS = ["kind", "name", "location"]
+
+
+def gen_rcfg(rng, k):
+    a = []
+    r = rng.random()
+    if r < 0.25:
+        a.append("bench")
+    if rng.random() < 0.2:
+        a.append("test")
+    if rng.random() < 0.25:
+        a.append("list")
+    if rng.random() < 0.2:
+        a.append("nextest")
+    if rng.random() < 0.15:
+        a.append("format=" + rng.choice(["terse", "terse", "terse", "pretty"]))
+        if rng.random() < 0.7 and "nextest" not in a:
+            a.append("nextest")
+        if rng.random() < 0.7 and "list" not in a:
+            a.append("list")
+    for flag, env in (("sort", "esort"), ("sortr", "esortr")):
+        if rng.random() < 0.3:
+            a.append(f"{flag}={rng.choice(SORTS)}")
+        if rng.random() < 0.15:
+            a.append(f"{env}={rng.choice(SORTS)}")
+    if any(t.startswith("sort=") for t in a) and any(t.startswith("sortr=") for t in a):
+        a.append("order=" + rng.choice(["sr", "rs"]))
+    if rng.random() < 0.3:
+        a.append("timer=" + rng.choice(["os", "tsc"]))
+    if rng.random() < 0.25:
+        a.append("etimer=" + rng.choice(["os", "tsc"]))
+    if rng.random() < 0.3:
+        a.append("color=" + rng.choice(["auto", "always", "never"]))
+    if rng.random() < 0.3:
+        a.append("bytes=" + rng.choice(["decimal", "binary"]))
+    if rng.random() < 0.25:
+        a.append("ebytes=" + rng.choice(["decimal", "binary"]))
+    r = rng.random()
+    if r < 0.2:
+        a.append("ignored")
+    elif r < 0.4:
+        a.append("include-ignored")
+    elif r < 0.45:
+        a += ["ignored", "include-ignored"]
+
+    def calls():
+        out = []
+        for _ in range(rng.choice([0, 0, 1, 1, 2, 3])):
+            out.append(rng.choice(["color=auto", "color=always", "color=never", "bytes=binary", "bytes=decimal", "run_ignored",
+                                   "run_only_ignored"]))
+        return out
+
+    exact = rng.random() < 0.4
+    ops, origins = [], []
+
+    def text(is_exact):
+        return enc(rng.choice(RC_TEXT + RC_PATHS[:6]) if is_exact or rng.random() < 0.5 else rng.choice(RC_REGEX))
+
+    def builder_skip():
+        ex = rng.random() < 0.5
+        return "-" + ("e:" if ex else "r:") + text(ex)
+
+    for _ in range(rng.choice([0, 0, 1, 2])):
+        ops.append(builder_skip()); origins.append("p")
+    for _ in range(rng.choice([0, 0, 1, 1, 2, 3])):
+        ops.append("+" + ("e:" if exact else "r:") + text(exact)); origins.append("c")
+    for _ in range(rng.choice([0, 0, 1, 1, 2])):
+        ops.append("-" + ("e:" if exact else "r:") + text(exact)); origins.append("c")
+    for _ in range(rng.choice([0, 0, 0, 1])):
+        ops.append(builder_skip()); origins.append("q")
+    return (f"c{k} #A " + " ".join(a) + " #P " + " ".join(calls()) + " #Q " + " ".join(calls())
+            + " #F " + " ".join(ops) + " #O " + ("".join(origins) or "-"))
+
+
+RC_FIXED = [
+    "k0 #A #P #Q #F #O -",
+    "k1 #A bench #P #Q #F #O -",
+    "k2 #A bench test #P #Q #F #O -",
+    "k3 #A list bench #P #Q #F #O -",
+    "k4 #A list test #P #Q #F #O -",
+    "k5 #A list format=terse nextest #P #Q #F #O -",
+    "k6 #A list format=terse #P #Q #F #O -",
+    "k7 #A format=terse nextest #P #Q #F #O -",
+    "k8 #A format=terse nextest test #P #Q #F #O -",
+    "k9 #A list format=pretty nextest #P #Q #F #O -",
+    "k10 #A sort=name sortr=kind order=sr #P #Q #F #O -",
+    "k11 #A sort=name sortr=kind order=rs #P #Q #F #O -",
+    "k12 #A esort=name sortr=kind #P #Q #F #O -",
+    "k13 #A esortr=name sort=kind #P #Q #F #O -",
+    "k14 #A esort=name sort=kind #P #Q #F #O -",
+    "k15 #A esort=name esortr=location #P #Q #F #O -",
+    "k16 #A esort=name sort=kind sortr=location order=sr #P #Q #F #O -",
+    "k17 #A esort=name sort=kind sortr=location order=rs #P #Q #F #O -",
+    "k18 #A esortr=name sort=kind sortr=location order=sr #P #Q #F #O -",
+    "k19 #A timer=os etimer=tsc #P #Q #F #O -",
+    "k20 #A etimer=tsc #P #Q #F #O -",
+    "k21 #A color=never #P color=always #Q #F #O -",
+    "k22 #A #P color=always #Q #F #O -",
+    "k23 #A color=never #P #Q color=auto #F #O -",
+    "k24 #A #P bytes=binary #Q #F #O -",
+    "k25 #A ebytes=decimal #P bytes=binary #Q #F #O -",
+    "k26 #A bytes=binary ebytes=decimal #P #Q bytes=decimal #F #O -",
+    "k27 #A ignored #P run_ignored #Q #F #O -",
+    "k28 #A #P run_only_ignored run_ignored #Q #F #O -",
+    "k29 #A include-ignored #P #Q run_only_ignored #F #O -",
+    "k30 #A ignored include-ignored #P #Q #F #O -",
+    "k31 #A #P #Q #F +e:a::b -e:a::b::c #O cc",
+    "k32 #A #P #Q #F +r:a::b -e:a::b::c #O cq",
+    "k33 #A #P #Q #F -e:top +e:top +e:x -e:String #O pccc",
+    "k34 #A #P #Q #F -r:(?i)STRING +r:top$ +r:^a -r:c$ #O pccc",
+    "k35 #A #P #Q #F -e:m::tuple::(1,\u24232) -e:Pair<u8,\u2423u8> #O cc",
+    "k36 #A #P #Q #F +e: #O c",
+    "k37 #A #P #Q #F -r: #O c",
+]
+
+FLAGS_ORDER = ["bench", "test", "list", "ignored", "include-ignored"]
+
+
+def rcfg_cmd(case):
+    """Command line, environment of one case."""
+    secs, cur = {"": []}, ""
+    for t in case.split(" "):
+        if len(t) == 2 and t[0] == "#":
+            cur = t[1]
+            secs[cur] = []
+        elif t:
+            secs[cur].append(t)
+
+    def sec(name):
+        return secs.get(name, [])
+
+    a = sec("A")
+    kv = dict((t.split("=", 1) + [""])[:2] for t in a)
+    args, env = [], {"HX_DUMP_RUNNER": "1", "HX_PATHS": "\x1f".join(RC_PATHS)}
+    for f in FLAGS_ORDER:
+        if f in kv:
+            args.append("--" + f)
+    if "format" in kv:
+        args += ["--format", kv["format"]]
+    if "nextest" in kv:
+        env["NEXTEST"] = "1"
+    sortargs = []
+    if "sort" in kv:
+        sortargs.append(["--sort", kv["sort"]])
+    if "sortr" in kv:
+        sortargs.append(["--sortr", kv["sortr"]])
+    if kv.get("order") == "rs":
+        sortargs.reverse()
+    for sa in sortargs:
+        args += sa
+    for k, e in (("esort", "DIVAN_SORT"), ("esortr", "DIVAN_SORTR"), ("etimer", "DIVAN_TIMER"), ("ebytes", "DIVAN_BYTES_FORMAT")):
+        if k in kv:
+            env[e] = kv[k]
+    for k, f in (("timer", "--timer"), ("color", "--color"), ("bytes", "--bytes-format")):
+        if k in kv:
+            args += [f, kv[k]]
+    builder = []
+    for name, pre in (("P", "pre:"), ("Q", "post:")):
+        for t in sec(name):
+            k, _, v = t.partition("=")
+            builder.append(pre + ("bytes_format" if k == "bytes" else k) + ("=" + v if v else ""))
+    ops = sec("F")
+    origins = (sec("O") or ["-"])[0]
+    origins = "" if origins == "-" else origins
+    exact = False
+    for op, o in zip(ops, origins):
+        inc, kind, pat = op[0] == "+", op[1], dec(op[3:])
+        if o == "c":
+            exact = exact or kind == "e"
+            args += [pat] if inc else ["--skip=" + pat]
+        else:
+            call = {"e": "skip_exact", "r": "skip_regex"}.get(kind, "skip_regex_" + kind)
+            builder.append(("pre:" if o == "p" else "post:") + call + "=" + pat)
+    if exact:
+        args.append("--exact")
+    env["HX_BUILDER"] = ";".join(builder)
+    return args, env, ops
+
+
+def rcfg_impl_runner(run_lines):
+    def runner(st, hbin):
+        xs = " ".join("?" + enc(p) for p in RC_PATHS)
+        oracle_in, parsed = [], []
+        for case in st.cases:
+            args, env, ops = rcfg_cmd(case)
+            parsed.append((args, env, ops))
+            oracle_in.append("o #P " + " ".join(o[1] + ":" + o[3:] for o in ops if o[1] != "e") + " #Q " + xs)
+        rc, tables, err, _ = run_lines(hbin, "oracle", oracle_in, 120)
+        lines = []
+        for case, (args, env, ops), tline in zip(st.cases, parsed, tables + ["crash"] * (len(st.cases) - len(tables))):
+            rows = iter(t for t in tline[2:].split(" ") if t)
+            trows = " ".join(next(rows) if o[1] != "e" else "x" for o in ops) if tline.startswith("#T") else "oracle-failed"
+            tail = f" #X {xs} #T {trows}"
+            rc, out, err = run(hbin, args, env, timeout=30)
+            if rc == 2 and "error:" in err:
+                lines.append("rejected" + tail)
+            elif rc != 0:
+                lines.append(f"crash rc={rc} {err.strip().splitlines()[-1:]}" + tail)
+            else:
+                o = out.splitlines()
+                lines.append((o[1] if len(o) > 2 else "short-output") + " #M " + (o[2] if len(o) > 2 else "") + tail)
+        return lines
+    return runner
+
+
+def rcfg_model_input(case, impl):
+    return case + (" #X" + impl.split(" #X", 1)[1] if " #X" in impl else "")
+
+
+def rcfg_stream(Stream, run_lines, tier, rng, corpus):
+    cases = corpus + RC_FIXED + [gen_rcfg(rng, k) for k in range(160 if tier == "quick" else 5000)]
+    return Stream("runner-config-fresh-process", "rcfg", cases, impl_runner=rcfg_impl_runner(run_lines), model_input=rcfg_model_input,
+                  compare=lambda i, m: i.split(" #X")[0] == m,
+                  nontrivial=lambda c, m: m != "rejected" and (" #A #P" not in c),
+                  describe="one fresh hx-select-e2e process per case: builder calls, flags (--bench/--test/--list/--format under NEXTEST, "
+                           "--sort/--sortr in both orders, --timer, --color, --bytes-format, --ignored/--include-ignored), DIVAN_* variables, "
+                           "positional/--skip/--exact and builder skips -> hooks runner_config and runner_filter_is_match over a fixed path list")
